@@ -191,4 +191,54 @@ theorem LoopInv.rounds (fx : Fixes) (n : Nat) (st : Loop) (r : Nat) (rds : List 
   | nil => exact ⟨r, h⟩
   | cons rd rest ih => exact ih _ _ (LoopInv.step fx n st r rd h)
 
+/-! ### what continues after `Start` has returned belongs to a round the environment started itself -/
+
+theorem reloadEvs_round_eq (r k i : Nat) : ∀ e ∈ reloadEvs r k i, reloadRound e = some r := by
+  induction k generalizing i with
+  | zero => intro e he; cases he
+  | succ k ih =>
+    intro e he
+    simp only [reloadEvs, List.mem_cons] at he
+    rcases he with rfl | rfl | he
+    · rfl
+    · rfl
+    · exact ih _ e he
+
+/-- a step leaves `post` alone, or — in a programmatic round — sets it to a piece of that round's events -/
+theorem roundStep_post (fx : Fixes) (n : Nat) (st : Loop) (r : Nat) (rd : Round) :
+    (roundStep fx n st r rd).post = st.post ∨
+    (rd.trig = .prog ∧ ∃ c k, (roundStep fx n st r rd).post = (reloadEvs r k 0).drop c) := by
+  unfold roundStep
+  split
+  · left; rfl
+  · split
+    · left; rfl
+    · simp only []
+      split
+      · left; rfl
+      · left; rfl
+      · left; rfl
+      · rename_i c _ htr _
+        right; exact ⟨by simpa using htr, _, _, rfl⟩
+
+theorem roundsFrom_post_env (fx : Fixes) (n : Nat) (all : List Round) (st : Loop) (r : Nat) (rds : List Round)
+    (hall : all.drop r = rds)
+    (hp : ∀ e ∈ st.post, ∃ r' rd', reloadRound e = some r' ∧ all[r']? = some rd' ∧ rd'.trig = .prog) :
+    ∀ e ∈ (roundsFrom fx n st r rds).post,
+      ∃ r' rd', reloadRound e = some r' ∧ all[r']? = some rd' ∧ rd'.trig = .prog := by
+  induction rds generalizing st r with
+  | nil => exact hp
+  | cons rd rest ih =>
+    simp only [roundsFrom]
+    apply ih
+    · rw [← List.drop_drop, hall]; rfl
+    · have hrd : all[r]? = some rd := by
+        have := congrArg List.head? hall
+        simpa [List.head?_drop] using this
+      rcases roundStep_post fx n st r rd with h | ⟨htr, c, k, h⟩
+      · rw [h]; exact hp
+      · rw [h]
+        intro e he
+        exact ⟨r, rd, reloadEvs_round_eq r k 0 e (List.mem_of_mem_drop he), hrd, htr⟩
+
 end Rivaas.Lifecycle
